@@ -8,54 +8,60 @@ From TskVerif Require Import Base.Common C07.Model C07.ListLemmas C07.CmpLemmas 
 Import ListNotations.
 Open Scope Z_scope.
 
-Lemma get_repeat {A} (x : A) m k : 0 <= k < Z.of_nat m -> get (repeat x m) k = Ok x.
+Lemma offsets_of_app a x y :
+  offsets_of a (x ++ y) = starts a x ++ offsets_of (a + zlen (concat x)) y.
 Proof.
-  intro H. apply get_nth_error. split; [lia|]. apply nth_error_repeat. lia.
+  revert a; induction x as [|r t IH]; intro a; simpl.
+  - change (zlen (@nil Z)) with 0. now rewrite Z.add_0_r.
+  - rewrite IH, zlen_app.
+    replace (a + zlen r + zlen (concat t)) with (a + (zlen r + zlen (concat t))) by lia. reflexivity.
 Qed.
-
-Lemma spans_from_zeros m : forall len k, 0 <= k -> k + Z.of_nat len < Z.of_nat m ->
-  spans_from (repeat 0 m) k len = Ok (repeat (0, 0) len).
-Proof.
-  induction len as [|len IH]; intros k K0 Kn; simpl; auto.
-  rewrite !get_repeat by lia. simpl. rewrite IH by lia. reflexivity.
-Qed.
-
-Lemma copy_back_zeros len : copy_back [] (repeat (0, 0) len) 0 [] = Ok ([], repeat 0 len).
-Proof.
-  induction len; simpl; auto. unfold slice, write_at. simpl. rewrite IHlen. reflexivity.
-Qed.
-
-Lemma map_const {A B} (f : A -> B) (c : B) l : (forall x, In x l -> f x = c) -> map f l = repeat c (length l).
-Proof. induction l; simpl; intro H; auto. rewrite H by now left. f_equal. apply IHl. intros; apply H; now right. Qed.
-
-Lemma firstn_repeat' {A} (x : A) a b : firstn a (repeat x (a + b)) = repeat x a.
-Proof. rewrite repeat_app. rewrite <- (repeat_length x a) at 1. apply firstn_app_exact. Qed.
-Lemma skipn_repeat' {A} (x : A) a b : skipn a (repeat x (a + b)) = repeat x b.
-Proof. rewrite repeat_app. rewrite <- (repeat_length x a) at 1. apply skipn_app_exact. Qed.
 
 Lemma skipn_In' {A} (l : list A) n x : In x (skipn n l) -> In x l.
 Proof. intro H. rewrite <- (firstn_skipn n l). apply in_or_app. now right. Qed.
+
+Lemma skipn_offsets_last_at a mds n : n = length mds ->
+  skipn n (offsets_of a mds) = [a + zlen (concat mds)].
+Proof.
+  intros ->. rewrite offsets_of_starts. rewrite <- (starts_length a mds), skipn_app_exact. reflexivity.
+Qed.
 
 Section WithQ.
   Variable Q : qsorts.
   Hypothesis HQ : qsorts_ok Q.
 
-  (* 6904 with an arbitrary start, no edge metadata *)
-  Theorem sort_edges_start_no_metadata t start :
-    t_emd t = [] -> t_eoff t = repeat 0 (S (length (t_edges t))) ->
-    0 <= start <= zlen (t_edges t) ->
+  (* 6904 with an arbitrary start, with metadata (after the fix of the copy-back offset) *)
+  Theorem sort_edges_start_spec t mds start :
+    edges_wf t mds -> 0 <= start <= zlen (t_edges t) ->
     (forall e, In e (t_edges t) -> 0 <= e_parent e < zlen (t_nodes t)) ->
-    exists es',
-      sort_edges Q start t = Ok (set_edges t (firstn (Z.to_nat start) (t_edges t) ++ es') [] (t_eoff t)) /\
-      Permutation (skipn (Z.to_nat start) (t_edges t)) es' /\
+    let s := Z.to_nat start in
+    exists es' mds',
+      sort_edges Q start t
+        = Ok (set_edges t (firstn s (t_edges t) ++ es') (concat (firstn s mds ++ mds'))
+                        (offsets_of 0 (firstn s mds ++ mds'))) /\
+      length mds' = length es' /\
+      Permutation (combine (skipn s (t_edges t)) (skipn s mds)) (combine es' mds') /\
       Sorted (edge_le (map n_time (t_nodes t))) es'.
   Proof.
-    intros Emd Eoff Rs RG. unfold sort_edges.
-    set (s := Z.to_nat start). set (rest := skipn s (t_edges t)).
-    set (time := map n_time (t_nodes t)).
-    assert (Ls : (s + length rest = length (t_edges t))%nat).
-    { unfold rest. rewrite skipn_length. unfold zlen in Rs. lia. }
-    rewrite Eoff, Emd. rewrite spans_from_zeros by (unfold zlen in *; lia). simpl.
+    intros (E1 & E2 & L) Rs RG s. unfold sort_edges. fold s.
+    set (pre := firstn s mds). set (suf := skipn s mds). set (A := concat pre).
+    set (rest := skipn s (t_edges t)). set (time := map n_time (t_nodes t)).
+    assert (Emds : mds = pre ++ suf) by (symmetry; apply firstn_skipn).
+    assert (Lpre : length pre = s).
+    { unfold pre. rewrite firstn_length. unfold zlen in Rs. lia. }
+    assert (Lsuf : length rest = length suf).
+    { unfold rest, suf. rewrite !skipn_length. lia. }
+    assert (Eoff : t_eoff t = starts 0 pre ++ offsets_of (zlen A) suf).
+    { rewrite E2. rewrite Emds at 1. rewrite offsets_of_app. reflexivity. }
+    assert (Emd : t_emd t = A ++ concat suf).
+    { rewrite E1. rewrite Emds at 1. apply concat_app. }
+    assert (Zst : zlen (starts 0 pre) = start).
+    { unfold zlen. rewrite starts_length, Lpre. unfold s. lia. }
+    rewrite Eoff.
+    replace (spans_from (starts 0 pre ++ offsets_of (zlen A) suf) start (length rest))
+      with (spans_from (starts 0 pre ++ offsets_of (zlen A) suf) (zlen (starts 0 pre)) (length suf))
+      by (rewrite Zst, Lsuf; reflexivity).
+    rewrite spans_from_offsets. cbn [bind].
     set (g := fun rs : erow * (Z * Z) =>
                 mkES (fst rs) (val 0 (get time (e_parent (fst rs)))) (fst (snd rs)) (snd (snd rs))).
     rewrite (mapM_eq_map _ g).
@@ -65,29 +71,36 @@ Section WithQ.
         destruct (get_ok_iff time (e_parent e)) as [_ G].
         destruct G as [tm G]; [unfold time, zlen in *; rewrite map_length; lia|].
         unfold g. simpl. fold time. rewrite G. reflexivity. }
-    simpl. set (recs := map g (combine rest (repeat (0, 0) (length rest)))).
+    cbn [bind]. set (recs := map g (combine rest (spans_of (zlen A) suf))).
     set (sorted := qs_edge Q recs). destruct (HQ_edge Q HQ recs) as [P Sd]. fold sorted in P, Sd.
-    assert (Zero : forall e, In e sorted -> (es_off e, es_len e) = (0, 0)).
-    { intros e He. assert (In e recs) by (eapply Permutation_in; [symmetry; eauto | auto]).
-      unfold recs in H. apply in_map_iff in H as ([r sp] & <- & Hin). apply in_combine_r in Hin.
-      apply repeat_spec in Hin. subst sp. reflexivity. }
-    rewrite (map_const (fun e => (es_off e, es_len e)) (0, 0) sorted Zero).
-    rewrite copy_back_zeros. simpl.
-    assert (Lsorted : length sorted = length rest).
-    { rewrite <- (Permutation_length P). unfold recs. rewrite map_length, combine_length, repeat_length. lia. }
-    exists (map es_row sorted). split; [|split].
+    (* the copy-back starts at metadata_offset[start] = |A| *)
+    assert (G0 : get (starts 0 pre ++ offsets_of (zlen A) suf) start = Ok (zlen A)).
+    { destruct (offsets_of_head (zlen A) suf) as [tl Eh]. rewrite Eh, <- Zst. apply get_app_mid. }
+    rewrite G0. cbn [bind].
+    assert (F : Forall2 (fun x e => es_row e = fst x /\ slice (t_emd t) (es_off e) (es_len e) = Ok (snd x))
+                        (combine rest suf) recs).
+    { pose proof (slices_of_spans suf A []) as Sl. rewrite app_nil_r in Sl. rewrite <- Emd in Sl.
+      unfold recs. clear - Sl Lsuf. revert Lsuf. generalize rest as es.
+      induction Sl as [|sp r sps rs H F IH]; intros [|e es] L; simpl in *; try discriminate; constructor; auto. }
+    destruct (ragged_sort_core_at es_row es_off es_len (t_emd t) A suf rest recs sorted Emd Lsuf F P)
+      as (mds' & CB & Pm & Lm & Lz & Em & _ & _).
+    rewrite CB. cbn [bind fst snd].
+    exists (map es_row sorted), mds'. split; [|split; [|split]].
     - f_equal. unfold set_edges. f_equal.
-      change (0 :: repeat 0 (length (t_edges t))) with (repeat 0 (S (length (t_edges t)))).
-      replace (S (length (t_edges t))) with (s + (length rest + 1))%nat by lia.
-      rewrite firstn_repeat'. rewrite Lsorted.
-      replace (s + (length rest + 1))%nat with ((s + length rest) + 1)%nat by lia.
-      rewrite skipn_repeat'. rewrite <- !repeat_app. f_equal. lia.
-    - assert (E : map es_row recs = rest).
-      { unfold recs. rewrite map_map. simpl.
-        transitivity (map fst (combine rest (repeat (0, 0) (length rest)))).
-        - apply map_ext. intros [e sp]. reflexivity.
-        - apply map_fst_combine. now rewrite repeat_length. }
-      rewrite <- E. now apply Permutation_map.
+      + unfold A. rewrite concat_app. reflexivity.
+      + assert (Ls : length sorted = length suf).
+        { rewrite <- (Permutation_length P). unfold recs.
+          rewrite map_length, combine_length, spans_of_length. lia. }
+        rewrite <- Lpre at 1. rewrite <- (starts_length 0 pre) at 1. rewrite firstn_app_exact.
+        replace (s + length sorted)%nat with (length (starts 0 pre) + length suf)%nat
+          by (rewrite starts_length; lia).
+        rewrite skipn_app. rewrite skipn_all2 by lia.
+        replace (length (starts 0 pre) + length suf - length (starts 0 pre))%nat with (length suf) by lia.
+        rewrite (skipn_offsets_last_at (zlen A) suf (length suf) eq_refl). simpl.
+        rewrite offsets_of_app. fold A. rewrite (offsets_of_starts (0 + zlen A) mds').
+        rewrite Z.add_0_l, Lz. reflexivity.
+    - now rewrite map_length.
+    - exact Pm.
     - apply Sorted_map_iff. eapply Sorted_impl_in; [|exact Sd].
       intros a b Ha Hb Hab. apply cmp_edge_le in Hab.
       assert (Tm : forall e, In e sorted -> es_time e = val 0 (get time (e_parent (es_row e)))).
@@ -104,6 +117,7 @@ Proof.
   unfold sort_edges. intro H.
   destruct (spans_from _ _ _); simpl in H; try discriminate.
   destruct (mapM _ _); simpl in H; try discriminate.
+  destruct (get (t_eoff t) s); simpl in H; try discriminate.
   destruct (copy_back _ _ _ _); simpl in H; try discriminate.
   inversion H. reflexivity.
 Qed.
@@ -113,6 +127,7 @@ Lemma sort_migrations_frame Q s t t1 :
 Proof.
   unfold sort_migrations. intro H.
   destruct (spans_from _ _ _); simpl in H; try discriminate.
+  destruct (get (t_goff t) s); simpl in H; try discriminate.
   destruct (copy_back _ _ _ _); simpl in H; try discriminate.
   inversion H. reflexivity.
 Qed.
